@@ -238,12 +238,14 @@ func exitChecks() int { return verif_ghost_int("exitChecks") }
 //@   trusted
 //@   modifies c.loweringState.unreachable, c.loweringState.values
 //@ iface (b ssa.Builder) AllocateBasicBlock() ssa.BasicBlock
-//@   ensures r0 != nil
+//@   ensures r0 != nil && !verif_ghost_flag("retBlk", r0)
 //@   modifies nothing
 // (the pooled argument lists: assumed to touch only the pool)
 //@ func (i ssa.Values) Append(p *wazevoapi.VarLengthPool[ssa.Value], items ...ssa.Value) ssa.Values
 //@   trusted
-//@   modifies nothing
+//@   records H:appendOff = verif_slice_off(items)
+//@   records H:appendLen = len(items)
+//@   modifies ghost("H:appendOff"), ghost("H:appendLen")
 
 // With close-on-context-done, every loop header starts with an exit code check.
 //@ case loop (c *Compiler) lowerCurrentOpcode()
@@ -332,18 +334,19 @@ func b2i(b bool) int {
 //@   modifies nothing
 
 //@ func (c *Compiler) callListenerAfter()
-//@   requires c.ssaBuilder != nil && c.wasmFunctionTyp != nil
+//@   requires c.ssaBuilder != nil && c.wasmFunctionTyp != nil && len(c.loweringState.values) >= len(c.wasmFunctionTyp.Results)
 //@   ensures[calls-the-after-trampoline-of-this-function-type] gg("lastOp") == int(ssa.OpcodeCallIndirect) && ssa.IsLoaded(ssa.Value(gg("lastV"))) && ssa.LoadedAt(ssa.Value(gg("lastV"))) == uint64(uint32(c.wasmFunctionTypeIndex)*8) && ssa.IsLoaded(ssa.LoadedFrom(ssa.Value(gg("lastV")))) && ssa.LoadedAt(ssa.LoadedFrom(ssa.Value(gg("lastV")))) == uint64(c.offset.AfterListenerTrampolines1stElement.U32()) && ssa.LoadedFrom(ssa.LoadedFrom(ssa.Value(gg("lastV")))) == c.moduleCtxPtrValue
 //@   ensures[no-bounds-check-involved] oobChecks() == old(oobChecks())
+//@   ensures[passes-the-results-on-top-of-the-value-stack] gg("H:appendLen") == len(c.wasmFunctionTyp.Results) && gg("H:appendOff") == verif_slice_off(c.loweringState.values)+len(c.loweringState.values)-len(c.wasmFunctionTyp.Results)
 //@   records afterCalls = old(afterCalls()) + 1
-//@   modifies ghost("*"), obj(c.listenerSignatures[c.wasmFunctionTyp][1])
+//@   modifies ghost("*"), ghost("H:appendOff"), ghost("H:appendLen"), obj(c.listenerSignatures[c.wasmFunctionTyp][1])
 //@   nosafety keep-pre
 
 //@ func (c *Compiler) insertJumpToBlock(args ssa.Values, targetBlk ssa.BasicBlock)
-//@   requires c.ssaBuilder != nil && targetBlk != nil && c.wasmFunctionTyp != nil
+//@   requires c.ssaBuilder != nil && targetBlk != nil && c.wasmFunctionTyp != nil && (verif_ghost_flag("retBlk", targetBlk) && c.needListener ==> len(c.loweringState.values) >= len(c.wasmFunctionTyp.Results))
 //@   ensures[after-listener-before-leaving-the-function] afterCalls() == old(afterCalls()) + b2i(verif_ghost_flag("retBlk", targetBlk) && c.needListener)
 //@   ensures[no-bounds-check-involved] oobChecks() == old(oobChecks())
-//@   modifies ghost("*"), obj(c.listenerSignatures[c.wasmFunctionTyp][1])
+//@   modifies ghost("*"), ghost("H:appendOff"), ghost("H:appendLen"), obj(c.listenerSignatures[c.wasmFunctionTyp][1])
 //@   nosafety keep-pre
 
 //@ func (c *Compiler) nPeekDup(n int) ssa.Values
@@ -352,7 +355,7 @@ func b2i(b bool) int {
 
 //@ case return (c *Compiler) lowerCurrentOpcode()
 //@   requires c.ssaBuilder != nil && c.wasmFunctionTyp != nil && c.loweringState.pc >= 0 && c.loweringState.pc < len(c.wasmFunctionBody) && c.wasmFunctionBody[c.loweringState.pc] == wasm.OpcodeReturn
-//@   requires !c.loweringState.unreachable && c.needListener
+//@   requires !c.loweringState.unreachable && c.needListener && len(c.loweringState.values) >= len(c.wasmFunctionTyp.Results)
 //@   ensures[after-listener-before-the-return] afterCalls() == old(afterCalls()) + 1
 //@   nosafety keep-pre
 
